@@ -142,6 +142,12 @@ def finish(report, level_if_all_proved="proof"):
     findings = load_known_findings()
     by_name = {o.name: o for o in report.obs}
     violations, known_hit, undecided_hard, degraded = [], [], [], []
+    # An undecided D/T obligation (code outside the subset, a binding that no longer resolves) does not fail the run when
+    # the bounded stand-in of the property passed: every bounded obligation of this run discharged or a listed finding
+    # (DESIGN 2.8: "held on everything explored", printed as DEGRADED, never counted as proved).
+    b_obs = [o for o in report.obs if o.kind == 'B']
+    b_ok = bool(b_obs) and all(o.status == DISCHARGED or (o.status == REFUTED and match_finding(findings, prop, o) is not None)
+                               for o in b_obs)
     for o in report.obs:
         if o.status == REFUTED:
             f = match_finding(findings, prop, o)
@@ -152,6 +158,9 @@ def finish(report, level_if_all_proved="proof"):
         elif o.status == UNDECIDED:
             s = by_name.get(o.standin) if o.standin else None
             if s is not None and s.status == DISCHARGED:
+                degraded.append(o)
+            elif o.standin is None and o.kind in 'DT' and b_ok:
+                o.standin = 'the bounded obligations of %s' % prop
                 degraded.append(o)
             else:
                 undecided_hard.append(o)
